@@ -31,7 +31,8 @@ func memWatch(id string) {
 }
 
 // Main is the entry point of a per-property checker binary:
-//   <bin> quick|thorough [--replay path]
+//
+//	<bin> quick|thorough [--replay path]
 func Main(id, level string, run func(*Ctx)) {
 	tier := "quick"
 	if len(os.Args) >= 2 {
